@@ -115,6 +115,14 @@ def run(ctx):
           lambda x: twelve_oracle((((x[0] + 49) % 60) + (1 if x[1] == 23 else 0)) % 12, ((x[1] + 1) // 2) % 12),
           'lunar-hour copy: same rule, day rolls at 23:00', lambda x: 'day n=%d hour=%d' % x, fn_site(p, 'LunarHour::get_twelve_star'))
 
+    # lunar-day wrappers of the day officer / day spirit: they must answer for the sexagenary day of the SAME civil day
+    def ld_wrap(x):
+        ld = lunar_day(2000, 1, False, 1, 2451545, scd(2451545, x[0], x[1]))
+        return (t.name(t.m(ld, 'get_duty')), t.name(t.m(ld, 'get_twelve_star')))
+    table(ctx, 'SIB-AGREE', 'LunarDay::get_duty/get_twelve_star', pairs12x60, ld_wrap,
+          lambda x: (DUTY[(x[1] % 12 - x[0] % 12) % 12], twelve_oracle(x[0] % 12, x[1] % 12)),
+          'lunar-day wrappers answer with the officer / spirit of their own sexagenary day (month pillar changes at the Jie, not at the lunar month)', pm, fn_site(p, 'LunarDay::get_duty'))
+
     # 3. twenty-eight mansions: all 84 (weekday, branch) combinations = 84 consecutive days
     days84 = list(range(2451545, 2451545 + 84))
 
